@@ -72,9 +72,13 @@ std::string first_diff(const std::string& a, const std::string& b)
     }
 }
 
-Model small_or_drawn_model(RunCtx& ctx, Rng& rng, GenCfg& cfg, bool allow_dynamic)
+Model small_or_drawn_model(RunCtx& ctx, Rng& rng, GenCfg& cfg, bool allow_dynamic, bool allow_old_syntax)
 {
     cfg = draw_cfg(rng);
+    if (allow_old_syntax && rng.chance(0.1)) {
+        ctx.count("models-in-old-syntax");
+        return gen_old_model(rng);
+    }
     if (!allow_dynamic)
         cfg.dynamic_templates = false;
     if (ctx.simplify & SIMP_SMALLMODEL) {
